@@ -193,7 +193,9 @@ func c16Units(tier string) []Unit {
 				vos.SetFS(vos.NewFS())
 				vos.MkdirAll("/d", 0o755)
 				lm := originium.NewVerifLM("/d", 100, 10, 1, false)
-				set := []ver{{Key: alpha[i], Ts: 1}, {Key: alpha[i], Ts: 2}, {Key: alpha[j], Ts: 3}}
+				// one key with a live and a deleted version, one key whose only version in this table is a deletion marker,
+				// one live key: every stored entry's user key is a member, deletion markers included
+				set := []ver{{Key: alpha[i], Ts: 1}, {Key: alpha[i], Ts: 2, Tomb: true}, {Key: alpha[j], Ts: 3, Tomb: (i+j)%2 == 0}, {Key: "live", Ts: 4}}
 				if err := lm.Flush(entriesOf(set)); err != nil {
 					c.Violation("c16/flush-error", err.Error(), nil, nil)
 					return
